@@ -1736,11 +1736,29 @@ class FieldFlow:
         targets = {id(t) for t, _v in binds}
 
         def evaluate(ev):
+            # (a walrus is bound when it is met in pre-order: exact for one walrus per
+            # expression whose value contains no further walrus, conservative kills otherwise)
+            walrus = {id(x.target) for x in walk_no_nested(ev) if isinstance(x, ast.NamedExpr)}
+            maybe_skipped = False
+            if walrus:
+                for x in walk_no_nested(ev):
+                    if isinstance(x, (ast.BoolOp, ast.IfExp, ast.ListComp, ast.SetComp, ast.DictComp, ast.GeneratorExp)) and any(isinstance(y, ast.NamedExpr) for y in ast.walk(x)):
+                        maybe_skipped = True  # the walrus is not evaluated on every path through the expression
+            if len(walrus) > 1 or maybe_skipped:
+                for x in walk_no_nested(ev):
+                    if isinstance(x, ast.NamedExpr):
+                        self._kill(classes, x.target.id)
+                walrus_bind = False
+            else:
+                walrus_bind = True
             for x in walk_no_nested(ev):
                 if isinstance(x, (ast.Call, ast.Await, ast.Yield, ast.YieldFrom)) and self.calls_rebind:
                     self._kill(classes, self.field)
                 elif isinstance(x, ast.NamedExpr):
-                    self._bind(classes, x.target.id, self._describe(classes, x.value))
+                    if walrus_bind:
+                        self._bind(classes, x.target.id, self._describe(classes, x.value))
+                elif isinstance(x, ast.Name) and id(x) in walrus:
+                    pass
                 elif isinstance(x, ast.Name) and isinstance(x.ctx, (ast.Store, ast.Del)):
                     self._kill(classes, x.id)
                     if x.id == self.root:
@@ -1754,24 +1772,40 @@ class FieldFlow:
             if id(ev) not in targets:
                 evaluate(ev)
         plan = []
+        self._memo = {}
         for target, value in binds:
             self._plan(classes, target, value, plan)
         for ev in evals:
             if id(ev) in targets:
                 evaluate(ev)
         for v, desc in plan:
+            if desc is None and isinstance(node.ast, ast.AugAssign):
+                # `x op= y` that completes leaves an object in x (None supports no operator);
+                # whether it is the same object depends on the type: a name of its own
+                desc = ("fresh", NULL_OBJ)
             self._bind(classes, v, desc)
         for v in kills:
             self._kill(classes, v)
         return self._freeze(classes)
 
-    def _describe(self, classes, value):
+    def _describe(self, classes, value, memo=None):
+        """the class the value of an expression belongs to (a new, still empty one for a
+        value that is not a tracked name); one value expression bound to several targets
+        (`a = self.f = {}`) is ONE object"""
         if value is None:
             return None
+        if memo is not None and id(value) in memo:
+            return memo[id(value)]
         v = self._var(value) if not isinstance(value, ast.NamedExpr) else None
         if v is not None:
-            return ("same", self._cls_of(classes, v, create=True))
-        return ("fresh", self._null(value, classes))
+            d = ("same", self._cls_of(classes, v, create=True))
+        else:
+            c = [set(), self._null(value, classes)]
+            classes.append(c)
+            d = ("same", c)
+        if memo is not None:
+            memo[id(value)] = d
+        return d
 
     def _plan(self, classes, target, value, plan):
         if isinstance(target, (ast.Tuple, ast.List)):
@@ -1788,7 +1822,7 @@ class FieldFlow:
         elif isinstance(target, ast.Attribute) and chain(target) == self.field:
             v = self.field
         if v is not None:
-            plan.append((v, self._describe(classes, value)))
+            plan.append((v, self._describe(classes, value, self._memo)))
 
     def _bind(self, classes, v, desc):
         self._kill(classes, v)
@@ -1893,13 +1927,14 @@ def may_aliases(fnode, field):
 
 
 def dict_effects(node, receivers, is_field):
-    """Effects of one CFG node on the dictionary held by any of `receivers`
-    (local names) or by the field (is_field(expr)).  Yields
-      ("rebind", stmt, value)        the field itself is assigned / deleted (value None: not a plain assignment)
-      ("set", site, key, value)      d[k] = v,  d.__setitem__(k, v),  d.update({k: v}, k=v) with literal keys
-      ("merge", site, None, None)    d.update(x) / d |= x: keys not visible
-      ("other", site, None, None)    any other mutation (del d[k], pop, clear, setdefault, nested stores, method value taken)
-      ("escape", site, None, None)   the dictionary is handed to a call / stored in another object / returned
+    """Effects of one CFG node on the dictionary reached through any of
+    `receivers` (local names) or through the field (is_field(expr)).  Yields
+    (kind, site, key, value, receiver expression):
+      "rebind"  the field itself is assigned / deleted (value None: not a plain assignment; receiver None)
+      "set"     d[k] = v,  d.__setitem__(k, v),  d.update({k: v}, k=v) with literal keys
+      "merge"   d.update(x) / d |= x: keys not visible
+      "other"   any other mutation (del d[k], pop, clear, setdefault, nested stores, method value taken)
+      "escape"  the dictionary is handed to a call / stored in another object / returned
     """
     a = node.ast
     if a is None or node.kind in ("T", "F", "join", "entry", "exit", "rexit"):
@@ -1911,40 +1946,40 @@ def dict_effects(node, receivers, is_field):
     evals, binds, _k = node_parts(node)
     stmt = a
     for target, value in binds:
-        for t in (target.elts if isinstance(target, (ast.Tuple, ast.List)) else [target]):
+        tupled = isinstance(target, (ast.Tuple, ast.List))
+        for t in (target.elts if tupled else [target]):
             if is_field(t):
                 if isinstance(stmt, ast.AugAssign):
-                    yield ("merge", stmt, None, None)
+                    yield ("merge", stmt, None, None, t)
                 else:
-                    yield ("rebind", stmt, value if not isinstance(target, (ast.Tuple, ast.List)) else None)
+                    yield ("rebind", stmt, None, value if not tupled else None, None)
             elif isinstance(t, ast.Name) and t.id in receivers and isinstance(stmt, ast.AugAssign):
-                yield ("merge", stmt, None, None)
+                yield ("merge", stmt, None, None, t)
             elif isinstance(t, ast.Subscript):
                 if is_recv(t.value) and not isinstance(t.slice, ast.Slice):
-                    if isinstance(stmt, ast.Assign) and not isinstance(target, (ast.Tuple, ast.List)):
-                        yield ("set", stmt, t.slice, value)
+                    if isinstance(stmt, ast.Assign) and not tupled:
+                        yield ("set", stmt, t.slice, value, t.value)
                     else:
-                        yield ("other", stmt, None, None)
+                        yield ("other", stmt, None, None, t.value)
                 else:
                     base = t.value
                     while isinstance(base, ast.Subscript):
                         base = base.value
                     if is_recv(base):
-                        yield ("other", stmt, None, None)
+                        yield ("other", stmt, None, None, base)
             elif isinstance(t, ast.Attribute) and value is not None and is_recv(value):
-                yield ("escape", stmt, None, None)
-    roots = list(evals)
+                yield ("escape", stmt, None, None, value)
     if isinstance(a, ast.Delete):
         for t in a.targets:
             base = t
             while isinstance(base, ast.Subscript):
                 base = base.value
             if is_field(t):
-                yield ("rebind", a, None)
+                yield ("rebind", a, None, None, None)
             elif base is not t and is_recv(base):
-                yield ("other", a, None, None)
+                yield ("other", a, None, None, base)
     claimed = set()
-    for root in roots:
+    for root in evals:
         for x in walk_with_lambdas(root):
             if isinstance(x, ast.Call):
                 f = x.func
@@ -1952,28 +1987,53 @@ def dict_effects(node, receivers, is_field):
                     claimed.add(id(f))
                     plain = not any(isinstance(z, ast.Starred) for z in x.args) and not any(k.arg is None for k in x.keywords)
                     if f.attr == "__setitem__" and plain and len(x.args) == 2 and not x.keywords:
-                        yield ("set", x, x.args[0], x.args[1])
+                        yield ("set", x, x.args[0], x.args[1], f.value)
                     elif f.attr == "update":
                         if plain and len(x.args) <= 1 and (not x.args or (isinstance(x.args[0], ast.Dict) and all(k is not None for k in x.args[0].keys))):
                             if x.args:
                                 for k, v in zip(x.args[0].keys, x.args[0].values):
-                                    yield ("set", x, k, v)
+                                    yield ("set", x, k, v, f.value)
                             for k in x.keywords:
-                                yield ("set", x, ast.Constant(value=k.arg), k.value)
+                                yield ("set", x, ast.Constant(value=k.arg), k.value, f.value)
                         else:
-                            yield ("merge", x, None, None)
+                            yield ("merge", x, None, None, f.value)
                     elif f.attr in _DICT_MUTATORS:
-                        yield ("other", x, None, None)
+                        yield ("other", x, None, None, f.value)
                 for z in list(x.args) + [k.value for k in x.keywords]:
                     z = z.value if isinstance(z, ast.Starred) else z
                     if is_recv(z):
-                        yield ("escape", x, None, None)
+                        yield ("escape", x, None, None, z)
             elif isinstance(x, ast.Attribute) and id(x) not in claimed and x.attr in _DICT_MUTATORS and is_recv(x.value) and isinstance(x.ctx, ast.Load):
                 # the bound method itself is taken (functools.partial(d.pop, k), f = d.update)
-                yield ("other", x, None, None)
+                yield ("other", x, None, None, x.value)
             elif isinstance(x, (ast.Return, ast.Yield, ast.YieldFrom)) and x.value is not None and is_recv(x.value):
-                yield ("escape", x, None, None)
+                yield ("escape", x, None, None, x.value)
             elif isinstance(x, (ast.List, ast.Tuple, ast.Set)) and any(is_recv(z) for z in x.elts):
-                yield ("escape", x, None, None)
+                yield ("escape", x, None, None, next(z for z in x.elts if is_recv(z)))
             elif isinstance(x, ast.Dict) and any(is_recv(z) for z in x.values):
-                yield ("escape", x, None, None)
+                yield ("escape", x, None, None, next(z for z in x.values if is_recv(z)))
+
+
+def binder_nodes(cfg, field, calls_rebind):
+    """{name or field: set of CFG node ids that may rebind it}"""
+    root = field.split(".")[0]
+    out = {}
+
+    def add(v, nid):
+        out.setdefault(v, set()).add(nid)
+        if v == root:
+            out.setdefault(field, set()).add(nid)
+
+    for node in cfg.nodes:
+        evals, binds, kills = node_parts(node)
+        for v in kills:
+            add(v, node.id)
+        for ev in list(evals) + [t for t, _v in binds]:
+            for x in walk_no_nested(ev):
+                if isinstance(x, ast.Name) and isinstance(x.ctx, (ast.Store, ast.Del)):
+                    add(x.id, node.id)
+                elif isinstance(x, ast.Attribute) and isinstance(x.ctx, (ast.Store, ast.Del)) and chain(x) == field:
+                    add(field, node.id)
+                elif isinstance(x, (ast.Call, ast.Await, ast.Yield, ast.YieldFrom)) and calls_rebind:
+                    add(field, node.id)
+    return out
